@@ -346,7 +346,8 @@ def extract_name(arg: InstrArg) -> str | None:
     Starting with Python 3.11, some instructions use a tuple as argument. However, we
     sometimes just need the name part of the argument. This function handles both cases.
     If the argument is a str, it returns it directly. If it is a tuple, it returns the
-    second element of the tuple, which is expected to be the name.
+    last element of the tuple, which is expected to be the name (LOAD_SUPER_ATTR carries
+    two flags in front of the name).
 
     Args:
         arg: The argument from which to extract the name.
@@ -357,7 +358,7 @@ def extract_name(arg: InstrArg) -> str | None:
     match arg:
         case str(name):
             return name
-        case (bool(), str(name)):
+        case (bool(), str(name)) | (bool(), bool(), str(name)):
             return name
         case _:
             return None
